@@ -119,8 +119,8 @@ TTick ==
 TSaveLoad ==
     /\ Ev("SaveLoad")
     /\ SetObs(E.obs)
-    /\ last' = [a |-> "SaveLoad", t |-> 0, res |-> ""]
-    /\ Chk(E.obs, TRUE, Idle /\ StepTick)
+    /\ last' = [a |-> "SaveLoad", t |-> 0, res |-> IF E.acc THEN "" ELSE "failed"]
+    /\ Chk(E.obs, TRUE, Idle /\ StepSaveLoad(E.acc) /\ (~E.acc => Len(E.obs.rej) = 0))
     /\ UNCHANGED <<chain, utxo, need, nMined, nUndone>>
 
 TNext == TReset \/ TSubmit \/ TMined \/ TUndone \/ TDeliver \/ TObserve \/ TTick \/ TSaveLoad
